@@ -131,7 +131,8 @@ def check(run, F, tier):
             r1.violation("notify_timer_fired/kind-split", "a path of notify_timer_fired does not discriminate the timer kind", conn.path_summary(p))
             continue
         k = list(ks)[0]
-        first = [e for e in p.effects if e[0] in ("write", "push", "enter", "call")]
+        # nothing observable (state write, event, opaque call) may precede the clearing; entering a private helper is not observable
+        first = [e for e in p.effects if e[0] in ("write", "push", "call")]
         w = [e for e in p.effects if e[0] == "write" and conn.field_of_write(e) == flags[k]]
         if not w or w[0][3] != ("c", 0, "bool") or (first and first[0] is not w[0]):
             r1.violation("notify_timer_fired/clear/" + k, "notify_timer_fired(%s) does not clear %s before anything else" % (k, flags[k]), conn.path_summary(p))
